@@ -12,7 +12,7 @@
    ch_attrs "=" attributes unchanged | "-" the new attributes have no manifest | hex new manifest
    ch_raw   "=" | "-" | hex ;  ch_id "=" no id keyword | hex or "."
 
-   answer: ok <id> <compute_hash: hex|!Err> <check: ok|!Err> <swhid: tag:idhex|!Err> <raw_manifest key in to_dict: 0|1>
+   answer: ok <id> <compute_hash: hex|!Err> <check: ok|!Err> <swhid: tag:idhex|!Err>
            err <Err>        (the constructor / evolve raised) *)
 let kind_of = function
   | "origin" -> KOrigin | "snapshot" -> KSnapshot | "release" -> KRelease | "revision" -> KRevision
@@ -31,7 +31,7 @@ let show (r : hobj result) : string =
       let ch = (match compute_hash sha1 o with Ok h -> hex_of_bytes h | Err e -> "!" ^ err_name e) in
       let ck = (match check sha1 o with Ok _ -> "ok" | Err e -> "!" ^ err_name e) in
       let sw = (match swhid o with Ok (t, i) -> text_of_bytes t ^ ":" ^ hex_of_bytes i | Err e -> "!" ^ err_name e) in
-      String.concat " " ["ok"; hex_of_bytes o.h_id; ch; ck; sw; (if to_dict_has_raw o then "1" else "0")]
+      String.concat " " ["ok"; hex_of_bytes o.h_id; ch; ck; sw]
 let () = serve (function
   | ["new"; k; a; r; i] -> show (construct sha1 (kind_of k) (opt_bytes_of_hex a) (opt_arg r) (bytes_of_hex i))
   | ["evo"; k; a; r; i; ca; cr; ci] ->
